@@ -305,8 +305,8 @@ def event_fields(src, name):
 
 
 RALPH = {
-    "alephium/contracts/governance.ral": ["publishWormholeMessage", "parseAndVerifyVAA", "parseAndVerifyGovernanceVAAGeneric", "submitNewGuardianSet", "submitSetMessageFee", "submitTransferFees", "submitContractUpgrade"],
-    "alephium/contracts/token_bridge/token_bridge_governance.ral": ["parseAndVerifyRegisterChain", "upgradeContract", "destroyUnexecutedSequenceContracts", "updateMinimalConsistencyLevel", "updateRefundAddress"],
+    "alephium/contracts/governance.ral": ["publishWormholeMessage", "parseAndVerifyVAA", "parseAndVerifyGovernanceVAAGeneric", "parseAndVerifyGovernanceVAA", "submitNewGuardianSet", "submitSetMessageFee", "submitTransferFees", "submitContractUpgrade"],
+    "alephium/contracts/token_bridge/token_bridge_governance.ral": ["parseAndVerifyGovernanceVAA", "parseAndVerifyRegisterChain", "upgradeContract", "destroyUnexecutedSequenceContracts", "updateMinimalConsistencyLevel", "updateRefundAddress"],
     "alephium/contracts/token_bridge/token_bridge.ral": ["attestToken"],
     "alephium/contracts/token_bridge/token_bridge_factory.ral": ["parseContractUpgrade"],
 }
